@@ -2078,3 +2078,62 @@ def c17_mesh_rule(ctx, rid):
     pcs = [c for c in walk_shallow(ph.node) if isinstance(c, ast.Call) and len(c.args) >= 3 and roles_of(c.args[2], ph, hw) == {"_heatmap_var"}]
     need(len(pcs) == 1, "anchor lost: heat-map draw call")
     return mesh_edges_rule(ctx, rid, ph, ("self._heatmap_x", "self._heatmap_y"), pcs[0].args[:2])
+
+
+def c18_selection_rules(ctx):
+    """C18.R18: the y values of a slice are selected by dimension *name*; C18.R19: `aggregate` given as one name is not
+    used as a container of names."""
+    prog = ctx.prog
+    I = prog.need_cls(INF + ".Infiniplotter")
+    pl, init = I.methods.get("plot_lines"), I.methods.get("__init__")
+    need(pl and init, "anchor lost: Infiniplotter methods")
+    r18 = ctx.rule("C18.R18", "the y values of a slice come from a by-name selection of the location (isel(loc)), not from positional indexing of a raw array with the loop's index tuple", floor=1)
+    AXL = _ax_name(pl)
+    pcalls = [c for c in walk_shallow(pl.node) if isinstance(c, ast.Call) and isinstance(c.func, ast.Attribute) and c.func.attr == "plot" and norm(c.func.value) == AXL]
+    need(len(pcalls) == 1 and len(pcalls[0].args) >= 2, "anchor lost: ax.plot(x, y) in plot_lines")
+    loops = [n for n in walk_shallow(pl.node) if isinstance(n, ast.For) and "self.ranges" in norm(n.iter)]
+    need(len(loops) == 1 and isinstance(loops[0].target, ast.Name), "anchor lost: location loop in plot_lines")
+    lv = loops[0].target.id
+    e = pcalls[0].args[1]
+    seen = 0
+    verdict = None
+    while seen < 8 and verdict is None:
+        seen += 1
+        t = norm(e)
+        if "ds_loc[" in t or ".isel(loc)" in t or ".sel(loc)" in t:
+            verdict = "name"
+            break
+        if isinstance(e, ast.Subscript) and isinstance(e.slice, ast.Name) and e.slice.id == lv:
+            verdict = ("positional", e)
+            break
+        if isinstance(e, ast.Subscript):
+            e = e.value
+            continue
+        if isinstance(e, ast.Attribute):
+            e = e.value
+            continue
+        if isinstance(e, ast.Name):
+            d = single_def(pl, e.id)
+            if d is None:
+                break
+            e = d[1]
+            continue
+        break
+    if verdict == "name":
+        r18.ok("plot_lines: y of a slice = ds.isel(loc)[y] (selection by dimension name)")
+    elif verdict is not None:
+        r18.bad(ctx.finding("C18.R18", pl, verdict[1], "the y values of a slice are `%s`: a raw array indexed with the loop's index tuple, whose order is the dataset's dimension order, not the variable's axis order -- when another variable comes first in the dataset the "
+                            "line styled and labelled for one location carries another location's data" % norm(verdict[1])[:60], construct="y-positional"), "y by name")
+    else:
+        raise AnalysisError("idiom changed: provenance of the y values in plot_lines (`%s`)" % norm(e)[:60])
+    r19 = ctx.rule("C18.R19", "`aggregate` given as a single dimension name is never used as a container of names (`d in self.aggregate` is a substring test then)", floor=0)
+    for n in ast.walk(init.node):
+        if isinstance(n, ast.Compare) and len(n.ops) == 1 and isinstance(n.ops[0], (ast.In, ast.NotIn)) and norm(n.comparators[0]) == "self.aggregate":
+            # a normalisation of the single-name form that dominates the test?
+            normalised = any(isinstance(s_, ast.Assign) and norm(s_.targets[0]) == "self.aggregate" and isinstance(s_.value, (ast.List, ast.Tuple)) and any(norm(x) == "self.aggregate" for x in s_.value.elts) and s_.lineno < n.lineno
+                             for s_ in ast.walk(init.node))
+            if normalised:
+                r19.ok("`%s` after the single-name form was wrapped in a list" % norm(n))
+            else:
+                r19.bad(ctx.finding("C18.R19", init, n, "`%s` treats `aggregate` as a container of dimension names, but the documented single-name form is a str: the test is then a substring test, so aggregate='run' also selects a dimension called 'n' or 'u' "
+                                    "(slices along it are silently merged into one line)" % norm(n), construct="aggregate-substring"), "aggregate container")
